@@ -348,3 +348,46 @@ Proof.
     destruct (bal_is_zero cp (restrict d2 amt)); [discriminate|].
     destruct (restrict d2 amt) as [|x [|y l]]; discriminate.
 Qed.
+
+(* ---- which postings an assertion counts: on a real posting only the real ones, on a virtual one all ---- *)
+Lemma acct_total_real_only_ignores_virtual ord acct : forall hist acc,
+  acct_total ord hist acct true acc =
+  acct_total ord (filter (fun h => negb (a_virtual h)) hist) acct true acc.
+Proof.
+  induction hist as [|h hist IH]; intros acc; cbn [acct_total filter]; [reflexivity|].
+  destruct (a_virtual h) eqn:Hv; cbn [negb].
+  - rewrite andb_false_r. apply IH.
+  - cbn [acct_total]. rewrite Hv. cbn [negb]. rewrite !orb_true_r, !andb_true_r.
+    destruct (str_eqb (a_acct h) acct); [|apply IH].
+    destruct (add_or_set ord acc (a_amt h)) as [acc'|e]; cbn [bind]; [apply IH | reflexivity].
+Qed.
+
+(* ---- the layout of the file plays no part: a journal read in two stretches (an included file, a second -f file)
+   is the journal of the concatenation, the pool and the account histories carried over ---- *)
+Fixpoint state_after (ord permissive : bool) (pl : pool) (hist : list apost) (xs : list (list wpost)) : pool * list apost :=
+  match xs with
+  | [] => (pl, hist)
+  | x :: xs' =>
+      let (r, pl') := resolve_posts ord permissive pl hist [] x in
+      match r with
+      | Err _ => state_after ord permissive pl' hist xs'
+      | Ok ps =>
+          match finalize ord (cp_of pl') None ps with
+          | Ok (Accepted ps') => state_after ord permissive pl' (hist ++ posts_to_history ps') xs'
+          | _ => state_after ord permissive pl' hist xs'
+          end
+      end
+  end.
+
+Lemma run_journal_a_app ord permissive : forall xs ys pl hist,
+  run_journal_a ord permissive pl hist (xs ++ ys) =
+  run_journal_a ord permissive pl hist xs ++
+  (let (pl', hist') := state_after ord permissive pl hist xs in run_journal_a ord permissive pl' hist' ys).
+Proof.
+  induction xs as [|x xs IH]; intros ys pl hist; cbn [app run_journal_a state_after].
+  - reflexivity.
+  - destruct (resolve_posts ord permissive pl hist [] x) as [r pl'].
+    destruct r as [ps|e].
+    + destruct (finalize ord (cp_of pl') None ps) as [[ps'|]|e]; cbn [app]; f_equal; apply IH.
+    + cbn [app]. f_equal. apply IH.
+Qed.
